@@ -146,6 +146,7 @@ type (
 		Tpl, With Expr
 		Only      bool
 		Blocks    []*NBlock
+		Stray     []Node // text, prints and comments between the opening tag and the first override (never rendered)
 		ID        string
 	}
 	NExtends struct {
@@ -525,6 +526,8 @@ func (s *Speller) node(n Node, nextWS bool) {
 		s.tagOpen("embed", n.ID)
 		s.includeArgs(n.Tpl, n.With, n.Only)
 		s.close("%}", true)
+		// content outside the override blocks is discarded at run time, but it is source like any other
+		s.Nodes(n.Stray)
 		for _, b := range n.Blocks {
 			s.block(b)
 		}
